@@ -19,7 +19,9 @@ def main():
             p = os.path.join(scratch, m['file'])
             s = open(p).read()
             anchor = m.get('after')
-            start = s.index(anchor) if anchor else 0
+            start = s.find(anchor) if anchor else 0
+            if start < 0:
+                res.append((m['id'], 'STALE (anchor not found)')); print(m['id'], 'STALE anchor'); continue
             i = s.find(m['old'], start)
             if i < 0:
                 res.append((m['id'], 'STALE (pattern not found)')); continue
